@@ -4,6 +4,7 @@ import FedjaxVerif.Model.Emnist
 import FedjaxVerif.Model.Cifar
 import FedjaxVerif.Model.Labels
 import FedjaxVerif.Model.Stackoverflow
+import FedjaxVerif.Model.Loss
 
 namespace FedjaxVerif.Handlers.C20
 open FedjaxVerif
@@ -74,7 +75,8 @@ def handle (op : String) (args : List Val) : Option Val :=
   | "c20.shk", [t, v, l, snips] => do
     let t ← t.toNats?; let v ← v.toNat?; let l ← l.toNat?; let snips ← snips.toNatss?
     if !Shakespeare.tableOk t v then some (.sym "bad-table") else
-    -- `// 0` raises; `L = 1` with no snippet asks numpy for a negative dimension
+    -- `// 0` raises; `L = 1` with no snippet asks numpy for a negative dimension.  Both are outside the
+    -- property's domain (L >= 2): the harness does not send them and demands nothing there.
     if l = 0 ∨ (l = 1 ∧ snips = []) then some (.sym "err") else
     let r := Shakespeare.preprocess (fun b => t.getD b 0) l snips
     some (.list [.list (r.1.map Val.ofNats), .list (r.2.map Val.ofNats)])
@@ -95,6 +97,19 @@ def handle (op : String) (args : List Val) : Option Val :=
       some (.sym "bad-index") else
     let r := Stackoverflow.tokenizeBatch nv l sents
     some (.list [.list (r.1.map Val.ofNats), .list (r.2.map Val.ofNats)])
+  | "c20.loss", [kind, pad, el, rows] => do
+    -- kind: so | shk; el: none | expected_length; rows: [[targets, per-token losses], ...]
+    let kind ← kind.toSym?; let pad ← pad.toNat?
+    let el ← (match el with | .sym "none" => some none | v => v.toRat?.map some)
+    let rows ← Val.mapM? (fun r => match r with
+      | .list [t, c] => do let t ← t.toNats?; let c ← c.toRats?; some (t, c)
+      | _ => none) rows
+    if rows.any (fun r => r.1.length != r.2.length) then some (.sym "bad-shape") else
+    match kind with
+    | "so" => if el == some 0 then some (.sym "err") else
+        some (Val.ofRats (Loss.batchLoss (Loss.soLoss pad el) rows))
+    | "shk" => some (Val.ofRats (Loss.batchLoss (Loss.shkLoss pad) rows))
+    | _ => none
   | "c20.labels", [d, width, ms] => do
     let d ← parseDataset d; let width ← width.toNat?; let ms ← Val.mapM? parseMetric ms
     some (.list [Val.ofBool (Labels.labelsAgree d ⟨width, ms⟩),
